@@ -20,11 +20,26 @@ Sites     == {"f", "g", "B"}          \* def f(x: S) -> S;  def g(y: S = S.DEFAU
 Spellings == {"short", "dotted"}      \* Base | base.Base
 Orders    == {<<"f", "g", "B">>, <<"f", "B", "g">>, <<"g", "f", "B">>, <<"g", "B", "f">>, <<"B", "f", "g">>, <<"B", "g", "f">>}
 
+CONSTANT Mode        \* "spell" (above) | "bases"
+
+\* ---- Mode "bases": the list of bases of `class Handler(...)` (pages.format_class_signature :68-: the written bases,
+\* Class.rawbases, are paired with what they resolve to, Class.baseobjects - one entry per written base, None when
+\* nothing is found - so the two lists have the same length and every base written is shown).  Kinds of bases:
+\*   own     a third-party class imported under the very name of the class being defined
+\*           (from thirdparty.handlers import Handler; class Handler(Handler, ...))
+\*   local / mixin   classes of the project      foreign   another third-party name
+BaseKinds == {"own", "local", "mixin", "foreign"}
+RECURSIVE Perms(_, _)
+Perms(S, k) == IF k = 0 THEN {<<>>} ELSE {Append(p, x) : p \in Perms(S, k - 1), x \in S}
+BaseLists == {p \in UNION {Perms(BaseKinds, k) : k \in 1..3} : \A i, j \in DOMAIN p : i # j => p[i] # p[j]}
+
 VARIABLES spell, order, li, shown
 vars == <<spell, order, li, shown>>
-Init == /\ spell \in [Sites -> Spellings] /\ order \in Orders /\ li = 1 /\ shown = <<>>
+Init == \/ /\ Mode = "spell" /\ spell \in [Sites -> Spellings] /\ order \in Orders /\ li = 1 /\ shown = <<>>
+        \* "bases": order = the bases as written, shown = the bases displayed (one rendering, done at once)
+        \/ /\ Mode = "bases" /\ spell = <<>> /\ order \in BaseLists /\ li = 4 /\ shown = order
 \* link_to(identifier, label): the tag is made from this call's label
-Render == /\ li <= Len(order) /\ li' = li + 1
+Render == /\ Mode = "spell" /\ li <= Len(order) /\ li' = li + 1
           /\ shown' = Append(shown, [site |-> order[li], as |-> spell[order[li]]])
           /\ UNCHANGED <<spell, order>>
 Next == Render
@@ -32,6 +47,7 @@ Spec == Init /\ [][Next]_vars
 
 Done == li > Len(order)
 \* every site shows the spelling written at that site, whatever was rendered before it
-ShownAsWritten == \A i \in DOMAIN shown : shown[i].as = spell[shown[i].site]
+ShownAsWritten == IF Mode = "bases" THEN shown = order
+                  ELSE \A i \in DOMAIN shown : shown[i].as = spell[shown[i].site]
 Emit == Done => PrintT(ToJson([spell |-> spell, order |-> order, shown |-> shown]))
 =============================================================================
